@@ -18,6 +18,16 @@ CLAIMS = {
    text="Structural necessary conditions of the no-panic clause of C01, decided for every function of the module: P1 every panicking cty.Value/cty.Type accessor is dominated by a kind guard (plus non-null and known guards for configuration-evaluated values); P2/P3 every index and slice expression is proved in bounds by a linear-arithmetic prover over dominating facts, loop facts, local definitions and stated parser/cursor axioms; P4 every single-value type assertion has a dominating type test or a re-checked pairing premise (walker/validator kind pairing, no typed nil); P5 every dereference of an optional reference is reached only through a non-nil-establishing edge on every CFG path. Unproved uses of parameters become preconditions discharged at all in-module call sites.",
    note="Does not decide: termination (recursion measures, loop progress), integer overflow, panics inside hcl/cty beyond the modelled accessor contracts, stack depth, user hooks/validators. Assumes schema-owned cty values are known and non-null, schema collections hold no nil entries, parser ranges lie within the file, cursor within file (entry check).",
    ref="DESIGN.md §2 E4, §3 C01"),
+ "C04": dict(
+   technique="static analysis: ownership/freshness classification of every write site (immutable < deep-fresh < fresh < shared) with parameter-symbolic summaries (writes-through, result-as-fresh-as-argument, per-field results) to a fixed point over the module; who-may-call rules for package- and decoder-level state",
+   text="Structural necessary condition of C04 decided for every write in the module (≈455 sites: stores through pointers/maps/slices, appends into existing backing arrays, delete, copy, in-place sorts): the written memory is allocated in the current call tree (fresh), and writes below the first pointer hop require a deep-fresh root (a deep Copy result, make/new, literals of such, not demoted by stored shared pointers). Writes through parameters become summaries re-judged at every call site; any path from a public API entry point with caller-owned data to such a write is reported at the originating write. Also: append results bound to another variable (aliasing slices), package-level and decoder-level state writes.",
+   note="Flow-insensitive per variable (joins over all assignments); third-party callees assumed read-only on arguments except sort/append/copy; constraints/defaults/cty values immutable by contract; addresses may be shared by copies but writes through them are judged; user hooks/validators out of scope.",
+   ref="DESIGN.md §2 E3, §3 C04"),
+ "C05": dict(
+   technique="static analysis: same ownership engine as C04 (no write to pre-existing or package-level memory ⇒ all memory shared between concurrent queries is read-only) plus goroutine/select/global-state who-may-call rules",
+   text="Data-race freedom of concurrent queries follows structurally if no instruction reachable from a query writes memory that existed before the query or package-level memory: then every location shared between two queries is read-only and every written location is confined to one goroutine. The check decides exactly that (engine E3 over every write site, global/decoder state rules), and that no goroutine is spawned and no select is used. Equality with the sequential result is then C03's determinism clause (checked under C03).",
+   note="Races inside hcl/cty on shared AST nodes are assumed absent (read-only accessors); user callbacks out of scope; the memory-model argument is stated in DESIGN.md, not mechanised.",
+   ref="DESIGN.md §2 E3, §3 C05"),
 }
 NA = {}
 ALL = ["C%02d" % i for i in range(1, 21)]
